@@ -125,7 +125,7 @@ def run(ctx, cases_override=None):
         if kind in ("seq", "lgmres-noreset"): fl.append(l.replace(" seq ", " seqfresh ", 1))
         elif kind == "dseq": fl.append(l.replace(" d.seq ", " d.seqfresh ", 1))
     fresh = ctx["run_driver"](ctx["cpp"]["krylov"], fl, timeout=TMO)
-    ml = [l for l, kind, meta in cs if kind == "seq" and meta["solver"] in kc.MODELLED]
+    ml = [l for l, kind, meta in cs if kind in ("seq", "lgmres-noreset") and meta["solver"] in kc.MODELLED]
     model = ctx["run_driver"](ctx["model"], ml, timeout=TMO)
     info = dict(lgmres_noreset_differs=0, lgmres_noreset_total=0, calls_with_exception=0, calls_with_nan=0)
     for l, kind, meta in cs:
@@ -141,8 +141,16 @@ def run(ctx, cases_override=None):
             info["calls_with_exception"] += a.count("EXC")
             info["calls_with_nan"] += a.count("nan")
             if kind == "lgmres-noreset":
+                # documented exception: the object may differ from fresh objects; but it must still equal the
+                # model object whose state (buffer of augmentation vectors) is threaded through the calls
                 info["lgmres_noreset_total"] += 1
                 if a != b: info["lgmres_noreset_differs"] += 1
+                m = model.get(cid)
+                ctx["stats"]["oracle_checks"] += 1
+                if a != m:
+                    ctx["stats"]["mismatches"] += 1
+                    fails.append(dict(kind="counterexample", case=l, impl=a[:3000], model=(m or "")[:3000], op="seq-model:lgmres-noreset", size=len(l),
+                                      theorem="C15 correspondence: LGMRES always_reset=false, call sequence on one object vs the Coq model with threaded state"))
                 continue
             if a != b:
                 ctx["stats"]["mismatches"] += 1
@@ -157,7 +165,7 @@ def run(ctx, cases_override=None):
                 if a != m:
                     ctx["stats"]["mismatches"] += 1
                     fails.append(dict(kind="counterexample", case=l, impl=a[:3000], model=(m or "")[:3000], op="seq-model:" + meta["solver"], size=len(l),
-                                      theorem="C15 correspondence: call sequence on one %s object vs the Coq model evaluated per call from a junk workspace" % meta["solver"]))
+                                      theorem="C15 correspondence: call sequence on one %s object vs the Coq model object (state threaded through the calls, junk-filled at construction)" % meta["solver"]))
         elif kind in ("zero", "conv"):
             pr = kc.parse_result(a)
             ctx["stats"]["oracle_checks"] += 1
